@@ -138,6 +138,23 @@ pub struct Db<H: HashAlgorithm> {
     pub cfg: Cfg,
 }
 
+/// Open a directory whose previous handle was dropped a moment ago: the directory lock is
+/// released when the last internal reference to the old store goes away, which may lag the drop
+/// of the handle (helper threads winding down; more so after a failed commit). That lag is not
+/// what the caller is checking (C20 is about the lock), so "Failed to lock directory" is retried
+/// for a bounded time.
+pub fn open_nomt_retry<H: HashAlgorithm>(dir: &Path, cfg: &Cfg, secs: u64) -> anyhow::Result<Nomt<H>> {
+    let t0 = std::time::Instant::now();
+    loop {
+        match open_nomt::<H>(dir, cfg) {
+            Err(e) if format!("{e:#}").contains("Failed to lock directory") && t0.elapsed().as_secs() < secs => {
+                std::thread::sleep(std::time::Duration::from_millis(2));
+            }
+            other => return other,
+        }
+    }
+}
+
 pub fn open_nomt<H: HashAlgorithm>(dir: &Path, cfg: &Cfg) -> anyhow::Result<Nomt<H>> {
     nomt::verif::knobs::set_rollback_segment_size(cfg.seg_size);
     Nomt::<H>::open(cfg.options(dir))
